@@ -1067,12 +1067,12 @@ func runC05(c *runCtx) error {
 	r := newRng(c.seed*1000003 + 0xC05)
 	header := "From Coq Require Import List String ZArith.\nFrom KV Require Import Base.Bytes Model.Ast Model.Value Corr.EvalCommon Corr.C05.\nImport ListNotations.\nOpen Scope string_scope.\n"
 	e := newEmitter(c.out, "C05", header, 150)
-	e.m.Rule = "19 fixed statement shapes (aliases used in WHERE, in join/ilist/list arguments, under !, as IN-list items and BETWEEN bounds, under [i], alias of alias, use before definition, a name defined twice, ORDER BY, LIMIT, GROUP BY with aggregates of aliases) x batch size B in {1,2,3,32} x stores whose first k scanned pairs fail the filter for every k in 0..B+1 (B=32: k in {0,1,2,31,32,33}) followed by an accepted, a rejected, an accepted and 0-2 mixed pairs x access paths {full, prefix, range, point reads}; plus seeded random statements with 1-3 aliased fields over typed definitions; every combination is run row-at-a-time and in batches, cache on and off, with the names and with the definitions written out; non-trivial = some pair rejected and some returned, with an alias used in WHERE; distinct = distinct (statement, store) terms"
+	e.m.Rule = "19 fixed statement shapes (aliases used in WHERE, in join/ilist/list arguments, under !, as IN-list items and BETWEEN bounds, under [i], alias of alias, use before definition, a name defined twice, ORDER BY, LIMIT, GROUP BY with aggregates of aliases) x batch size B in {1,2,3,32} x stores whose first k scanned pairs fail the filter for every k in 0..B+1 (B=32, quick tier: k in {0,1,2,31,32,33}) followed by an accepted, a rejected, an accepted and 0-2 mixed pairs x access paths {full, prefix, range, point reads}; plus seeded random statements with 1-3 aliased fields over typed definitions; every combination is run row-at-a-time and in batches, cache on and off, with the names and with the definitions written out; non-trivial = some pair rejected and some returned, with an alias used in WHERE; distinct = distinct (statement, store) terms"
 	cr := &c05Run{e: e}
 	cr.cyclicCases(c)
 	Bs := []int{1, 2, 3, 32}
 	ks := func(B int) []int {
-		if B == 32 {
+		if B == 32 && !c.thorough() {
 			return []int{0, 1, 2, 31, 32, 33}
 		}
 		out := []int{}
@@ -1092,31 +1092,37 @@ func runC05(c *runCtx) error {
 		}
 		return &c05Ref{sel: ss}
 	}
-	for _, qy := range c05Templates() {
-		rf := mkRef(qy)
-		if rf == nil {
-			e.count("template_rejected:" + qy.tag)
-			continue
-		}
-		for _, B := range Bs {
-			for _, k := range ks(B) {
-				st, ok := c05BuildStore(r, rf, k, 3+r.intn(3))
-				if !ok {
-					e.count("no_store")
-					continue
-				}
-				for _, path := range c05Paths {
-					if B == 32 && !c.thorough() && path != "full" && path != "mget" && k != 33 {
+	rounds := 1
+	if c.thorough() {
+		rounds = 3
+	}
+	for round := 0; round < rounds; round++ {
+		for _, qy := range c05Templates() {
+			rf := mkRef(qy)
+			if rf == nil {
+				e.count("template_rejected:" + qy.tag)
+				continue
+			}
+			for _, B := range Bs {
+				for _, k := range ks(B) {
+					st, ok := c05BuildStore(r, rf, k, 3+r.intn(3))
+					if !ok {
+						e.count("no_store")
 						continue
 					}
-					cr.combo(qy, st, path, B, k, B <= 3 || k >= 31)
+					for _, path := range c05Paths {
+						if B == 32 && !c.thorough() && path != "full" && path != "mget" && k != 33 {
+							continue
+						}
+						cr.combo(qy, st, path, B, k, (B <= 3 || k >= 31) && round == 0)
+					}
 				}
 			}
 		}
 	}
 	n := 160
 	if c.thorough() {
-		n = 6000
+		n = 16000
 	}
 	if c.search {
 		n = 4000
